@@ -370,7 +370,9 @@ def obligations(tier):
       Ob('dict_roundtrip', roundtrip,
          dict(api=I(0, 2), sepmode=I(0, 2), **shape, keep=B(), cut=I(0, 3),
               v=I(-3, 3)),
-         split=('api', 'sepmode', 'r0', 'r1', 'cut'), timeout=300, funcs=F,
+         split=('api', 'sepmode', 'r0', 'r1', 'cut') if quick else (
+             'api', 'sepmode', 'r0', 'r1', 'cut', 'k0'), timeout=300 if quick else 900,
+         funcs=F,
          bounds='depth<=3, <=2 keys/level, shape domains %r, keep_empty_nodes '
                 'both, sep None, "/" or "__", is_leaf depth cut 0(None)..3, key pool %r'
                 % ({k: repr(v) for k, v in shape.items()}, KPOOL)),
@@ -386,7 +388,7 @@ def obligations(tier):
       Ob('state_set_laws', set_laws,
          dict(abits=bits, bbits=bits, aty=I(0, 0) if quick else bits,
               bty=I(0, 0)), split=('abits',) if not quick else (),
-         timeout=300, funcs=G,
+         timeout=300 if quick else 900, funcs=G,
          bounds='pairs of states over all subsets of the first %d paths' % np_),
       Ob('state_split_type_filters', type_filter_split,
          dict(c0=I(0, 3), c1=I(0, 3), vt0=I(0, 4), vt1=I(0, 4), which=I(0, 3)),
